@@ -12,7 +12,7 @@ PROPS["C07"] = {
 PROPS["C16"] = {
     "S": [{"name": "c16", "src": "c16.cpp", "shards": 16, "solver_timeout_ms": {"quick": 20000, "thorough": 120000}}],
     "explanation": "skyline LU, the pivoted small inverse, Householder QR and static_matrix algebra are executed at a symbolic scalar with ALL matrix/vector entries symbolic. Pivot tests, explicit-zero tests and pivot-choice comparisons are solver-decided forks; per feasible path z3 proves the exactness identities (A*solve(f)=f, A*inv(A)=I, A=QR, Q'Q=I, normal equations) as polynomial identities over the reals under the listed non-zero-divisor side conditions, and proves that every division of the LU factorisation is guarded by a zero test (zero pivot => exception).",
-    "bounds": {"quick": "skyline LU: all patterns with full diagonal n<=3 (entries non-zero), all patterns n<=2 with explicit zeros allowed, tridiagonal/arrow n<=6, band(5,2), 2x2/3x2 grids, 6 seeded 4x4..5x4; inverse n<=3 (all pivot orders, <=600 paths); QR shapes 1x1,2x1,1x2,3x1,1x3,4x1 and zero-column 2x2/3x2 in both storage orders; QR solve 1x1,2x1,3x1,1x2,1x3; static_matrix N<=3; solver timeout 20 s/query",
+    "bounds": {"quick": "skyline LU: all patterns with full diagonal n<=3 (entries non-zero), all patterns n<=2 with explicit zeros allowed, tridiagonal/arrow n<=6, band(5,2), 2x2 grid, 6 seeded 4x4..5x4; inverse n<=3 (all pivot orders, <=600 paths); QR shapes 1x1,2x1,1x2,3x1,1x3,4x1 and zero-column 2x2/3x2 in both storage orders; QR solve 1x1,2x1,3x1,1x2,1x3; static_matrix N<=3; solver timeout 20 s/query",
                "thorough": "LU n<=4 sampled 1/16 + dense 4x4, explicit zeros n<=3, QR 2x2 full, static_matrix N<=4, 120 s/query"},
     "out": "rounding / backward stability; QR with two or more non-trivial reflectors beyond 2x2 (nested radicals: z3 timeouts measured at 3x2); complex and block skyline LU; solver/eigen.hpp; Cuthill-McKee for symbolic graphs is decided by engine C",
 }
@@ -20,15 +20,15 @@ PROPS["C16"] = {
 PROPS["C06"] = {
     "S": [{"name": "c06", "src": "c06.cpp", "shards": 16, "flags": ["-fno-access-control"], "solver_timeout_ms": {"quick": 20000, "thorough": 60000}}],
     "explanation": "Each relaxation (damped Jacobi, SPAI-0, Gauss-Seidel, ILU(0), ILU(k), ILUP, ILUT; Chebyshev and SPAI-1 on concrete matrices) is constructed and applied by the real templates at a symbolic scalar. With the matrix entries, right-hand side, iterate and damping symbolic, z3 proves per pattern and per feasible path: the sweep equals x + M^-1(f - A x) for the documented splitting (triangular-solve identities for Gauss-Seidel, (LU)(x'-x) = damping*(f-Ax) with the factors read from the object), (LU)_ij = a_ij on the admitted pattern (pattern of A / level-of-fill<=k / pattern of A^(k+1)), LU = A whenever the exact factors fit, the exact solution is a fixed point of pre- and post-sweep, level-scheduled = serial triangular solve, and apply() ignores old output content.",
-    "bounds": {"quick": "all patterns with full diagonal n<=3 (entries non-zero, rows sorted) for Jacobi/SPAI-0/GS/ILU0; ILU(k=1) and ILUP(1) on all 3x3, ILU(2),ILU(3) sampled 1/4, ILUT(tau=0,p>n) n<=2 + 1/8 of 3x3; tridiagonal 4,5, arrow 4, 2x2 grid, band(4,2) incl. ILU(k=n); Chebyshev degree 1..3 (plain and scaled, Gershgorin) on 4 seeded SPD M-matrices n<=6, vectors symbolic; SPAI-1 on 8 seeded matrices n<=5; <=48 paths per case",
+    "bounds": {"quick": "all patterns with full diagonal n<=3 (entries non-zero, rows sorted) for Jacobi/SPAI-0/GS/ILU0; ILU(k=1) and ILUP(1) on all 3x3, ILU(2),ILU(3) sampled 1/4, ILUT(tau=0,p>n) n<=2 + 1/8 of 3x3; tridiagonal 4,5, arrow 4, 2x2 grid, band(4,2) incl. ILU(k=n); Chebyshev degree 1..3 (plain and scaled, Gershgorin) on 4 seeded SPD M-matrices n<=6, vectors symbolic; SPAI-1 on bidiagonal matrices n<=4 (rows with <=2 entries); <=48 paths per case",
                "thorough": "adds dense 4x4, arrow 5, 3x2 grid, 10 seeded 4x4, ILUP(2), Chebyshev degree<=5 on 12 matrices, SPAI-1 on 20"},
-    "out": "rounding; ILUT with tau>0 (threshold dropping is value dependent: only the exact-LU limit and triangularity are decided); Chebyshev with power-iteration bounds; complex and block value types (see C13); level-scheduled solves with more than one thread (see C09)",
+    "out": "rounding; ILUT with tau>0 (threshold dropping is value dependent: only the exact-LU limit and triangularity are decided); Chebyshev with power-iteration bounds; SPAI-1 rows with three or more entries (nested radicals of the row QR: no verdict in 20 s); complex and block value types (see C13); level-scheduled solves with more than one thread (see C09)",
 }
 
 PROPS["C01"] = {
     "S": [{"name": "c01", "src": "c01.cpp", "shards": 16, "solver_timeout_ms": {"quick": 20000, "thorough": 60000}}],
     "explanation": "Each of the 8 iterative solvers is executed by the real templates on a symbolic system. M-mode: matrix entries, right-hand side and initial guess symbolic, preconditioner either the identity or an ARBITRARY dense linear operator with symbolic entries; L-mode: concrete SPD M-matrix with the real AMG hierarchy as preconditioner, vectors symbolic. All inner coefficients are cut to fresh variables (truthfulness may not depend on them); the exits of the iteration are solver-decided forks. Per feasible path z3 proves res^2 <f,f> = ||f - A x||^2 (||P(f - A x)||^2 for left preconditioning) for the returned (x, res), the iteration bound, and with symbolic tol/abstol that an early exit implies the carried norm is below max(tol|f|, abstol).",
-    "bounds": {"quick": "maxiter k<=2 (k<=3 configs enumerated, M-mode runs k<=2; idrs/bicgstabl/lgmres k=1 on 3x3), patterns dense 2x2 and tridiagonal 3x3, restart M in {1,2}, L in {1,2}, s in {1,2}, K=1, both sides; arbitrary-P cases k=1; L-mode AMG (smoothed aggregation+spai0 on a 3x2 grid k<=2; aggregation+gauss_seidel 3x3 grid, smoothed aggregation+damped_jacobi n=7 for k=1); <=16 paths per case; feasibility queries 1 s (undecided => path explored anyway)",
+    "bounds": {"quick": "maxiter k<=2 (k<=3 configs enumerated, M-mode runs k<=2; idrs/bicgstabl/lgmres k=1 on 3x3), patterns dense 2x2 and tridiagonal 3x3, restart M in {1,2}, BiCGStab(L) only L=1, k=1 on the dense 2x2 system (its inner QR leaves radicals that make larger cases inconclusive; L=2 and L-mode in the thorough tier), IDR(s) k=2 only for s=1, s in {1,2}, K=1, both sides; arbitrary-P cases k=1; L-mode AMG (smoothed aggregation+spai0 on a 3x2 grid k<=2; aggregation+gauss_seidel 3x3 grid, smoothed aggregation+damped_jacobi n=7 for k=1); <=16 paths and 40 s per case; feasibility queries 1 s (at most 2 undecided prefixes per case are explored, the rest is counted as skipped)",
                "thorough": "k<=4 enumerated, M-mode k<=3 on tridiagonal 3x3, dense 3x3 k<=2, arbitrary P k<=2, L-mode k<=3, 48 paths per case"},
     "out": "rounding drift of the recursively carried residual; right-hand sides with |f| < 2^-50 (documented trivial-solution exit, see C15); convergence of every combination within 100 iterations on model problems and Richardson's asymptotic rate (floating-point long-run behaviour: not decidable by this technique); complex / block value types",
 }
@@ -44,7 +44,41 @@ PROPS["C03"] = {
 PROPS["C02"] = {
     "S": [{"name": "c02", "src": "c02.cpp", "shards": 16, "solver_timeout_ms": {"quick": 30000, "thorough": 120000}}],
     "explanation": "The real amg::apply/cycle runs on concrete dyadic SPD M-matrices with SYMBOLIC right-hand sides. z3 (linear real arithmetic) proves B(af+bg) = aBf + bBg for all f, g; a repeated application performs the same operations as the first (raw operation log identical => bitwise) and contains no variable of earlier right-hand sides; apply() never reads the old output; amg(4A) = B/4 exactly (ILUT excepted). The operator matrix B is extracted exactly from the linear forms and z3 decides over a free vector v: B symmetric, v'Bv > 0 and v'(2B - BAB)v > 0 for all v != 0 (quadratic forms, QF_NRA), i.e. SPD and rho(I - BA) < 1.",
-    "bounds": {"quick": "matrices: 3x2 grid, tridiagonal 7, 3x3 grid (SPD/contraction queries for n<=9; Chebyshev n<=7); cycles: V, W, npre/npost in {1,2,3}, pre_cycles 2, smoother on the coarsest level, max_levels 2, coarse_enough in {1,2,4}; smoothed_aggregation+spai0 / aggregation+damped_jacobi / smoothed_aggregation+gauss_seidel on all 8 cycle settings; ruge_stuben+spai0, emin+damped_jacobi, ilu0, iluk, ilup, chebyshev, ilut on V and W",
+    "bounds": {"quick": "matrices: 3x2 grid, tridiagonal 7, 3x3 grid (SPD/contraction queries for n<=9; Chebyshev n<=6); cycles: V, W, npre/npost in {1,2,3}, pre_cycles 2, smoother on the coarsest level, max_levels 2, coarse_enough in {1,2,4}; smoothed_aggregation+spai0 / aggregation+damped_jacobi / smoothed_aggregation+gauss_seidel on all 8 cycle settings; ruge_stuben+spai0, emin+damped_jacobi, ilu0, iluk, ilup, chebyshev, ilut on V and W",
                "thorough": "adds 4x3 grid, random n=9, 4x4 grid and all cycle settings for every pair"},
     "out": "rounding; n beyond the bound (B is extracted for n<=16 only); SPAI-1 inside AMG (nested radicals of the QR: no verdict within 120 s / 10 GB); block value types; non-symmetric smoothers and unequal npre/npost are checked for linearity/history/scaling only",
+}
+
+C_BASIC = {"name": "k_basic", "wrapper": "k_basic.cpp", "harness": "h_basic.c", "driver": "d_basic.c",
+    "stub_regex": ["_Sp_counted_base.*release", "__shared_ptr.*D2Ev", "__shared_count.*D2Ev"],
+    "assumptions": ["engine C: allocation failure is out of scope (operator new never returns null); values are integer tags that are moved, never computed on",
+                    "engine C: generated C validated against the g++ build of the same wrapper on seeded random inputs each run"],
+    "harnesses": [
+        {"fn": "h_sort_row", "unwind": 8, "defines": ["NNZ=6"], "timeout": 900},
+        {"fn": "h_sort_rows", "unwind": 7, "defines": ["N=3", "NNZ=5"], "timeout": 1200, "thorough": {"defines": ["N=3", "NNZ=6"], "unwind": 8, "timeout": 3000}},
+    ]}
+
+PROPS["C08"] = {
+    "S": [{"name": "c08", "src": "c08.cpp", "shards": 16}],
+    "C": [C_BASIC],
+    "explanation": "Engine S: transpose, both SpGEMM algorithms (marker-based via product(), row-merge called directly), sum, scale, sort_rows, diagonal (+inverted), pointwise_matrix, the CRS copy/convert constructors and the Gershgorin spectral-radius estimate are executed by the real templates with ALL values symbolic; per sparsity pattern z3 proves every output entry equals its dense definition, structure is well formed (monotone row pointers, in-range columns, no duplicate column in a product/sum row, pattern = union), pointwise entry = largest |a| of the block (max decided by solver forks), Gershgorin value = max row sum and -- for n<=2 with symbolic entries -- that no real or complex eigenpair exceeds it. Engine C: detail::sort_row and backend::sort_rows are lowered from clang IR to C and CBMC proves sortedness, pair preservation, permutation and row confinement for EVERY CRS structure within the bound (symbolic sizes, row pointers, columns).",
+    "bounds": {"quick": "engine S patterns: transpose all 2x2, 2x3, 1/8 of 3x3 + 6 seeded unsorted <=5x5; product all 2x2*2x2, 120 seeded 2x3*3x2 / 3x2*2x3, 40 seeded 3x3*3x3, sorted and unsorted output; sum all 2x2+2x2 and 80 seeded; misc all 2x2, 24 of 3x3, 8 of 2x3 (rows stored in reverse order); Gershgorin 2x2 patterns, tridiagonal 3 (plain and scaled), eigenvalue bound n<=2; pointwise block sizes 2,3 on 2x2 / 2x3 block patterns with structurally incomplete blocks (<=96 paths). engine C: sort_row n<=6 (unwind 8), sort_rows n<=3 rows, nnz<=5 (unwind 7)",
+               "thorough": "all 3x3 transposes, 800 2x3/3x2 products, 300 3x3 products and sums, Gershgorin dense 3x3; engine C sort_rows nnz<=6"},
+    "out": "rounding; the >16-thread dispatch between the SpGEMM algorithms (both are called directly); power-method estimate vs largest singular value; symbolic-structure quantification for kernels that allocate (transpose, product, sum): CBMC gave no verdict within 400 s even at 2 rows / 3 non-zeros on the IR-derived C (shared_ptr control blocks, std::rotate), so their structure is enumerated, not solved",
+}
+
+PROPS["C15"] = {
+    "S": [{"name": "c15", "src": "c15.cpp", "shards": 16}],
+    "explanation": "For each of the 9 solver classes coupled to real preconditioners (two AMG hierarchies, ILU(0), identity) on concrete SPD matrices with SYMBOLIC vectors, a call on a used object is compared with the same call on a freshly constructed object: the raw operation logs must be identical (hence bitwise-equal results) and the result may not mention any variable of earlier calls, also after a call with junk (NaN-like) inputs; exits of the iteration are solver-decided forks. Zero right-hand side => zero vector in zero iterations; a guess that solves the system => zero iterations and x unchanged (z3); right-hand side and matrix arrays unmodified. LGMRES without always_reset is the documented exception and is only observed. skyline_lu: second solve on a used object equals a fresh solve with the matrix fully symbolic.",
+    "bounds": {"quick": "matrices 3x2 grid and tridiagonal 6; maxiter k=1 for all solvers, k=2 for cg/bicgstab/richardson; tol=1e-8; restart 1-2, L in {1,2}, s in {1,2}; <=24 paths and 40 s per case; call scripts: solve, solve | solve, junk solve, solve | zero rhs | converged guess",
+               "thorough": "adds 3x3 grid, random n=7, k<=3 for every solver"},
+    "out": "rounding; deflated_solver and rebuild in the call script (rebuild is decided in C03); alternative system matrices passed to the solver; longer call sequences",
+}
+
+PROPS["C14"] = {
+    "S": [{"name": "c14", "src": "c14.cpp", "shards": 16}],
+    "explanation": "For every coarsening (4), relaxation (9) and solver (9) name the solver assembled through the run-time property-tree interface and the compile-time composition with the same parameter values run on the same symbolic vectors; the raw operation logs of x, the iteration count and the residual must be identical (bitwise equality), with the scalar-typed parameters (tol, damping, omega, delta) SYMBOLIC and carried through the tree as strings, so the equality holds for all their values; a compile-time params object imported from the same tree must agree as well. For 23 parameter structures (solvers, relaxations, coarsenings, amg, make_solver, deflated_solver) every exported key is mutated to a non-default value, imported and exported again: identity; an extra unknown key reaches the AMGCL_PARAM_UNKNOWN hook; the five invalid enumeration values raise exceptions.",
+    "bounds": {"quick": "matrix: 3x2 grid (tridiagonal 4 for spai1), maxiter 2 (1 for bicgstabl), 21 component triples varying one component at a time, <=12 paths per case",
+               "thorough": "adds tridiagonal 7"},
+    "out": "integer/bool/float parameters are not symbolic (one non-default value each); mpi::amg parameters; combinations varying several components at once",
 }
